@@ -18,7 +18,7 @@ RULE = ('Hypothesis-generated resource trees (<= 20 nodes, depth <= 4, handles /
         'loaded resource / a mirroring snapshot, get yields the identical handle, absent near-miss names raise; '
         'setattr/delattr on every snapshot node (existing, new, non-identifier names) must raise and the whole '
         'mirror check must pass again afterwards. '
-        'In ~13% of the cases the root level gets 40-260 further handles (the first and the last of them shadowing an older one). '
+        'One node kind registers an already registered handle object under a second name, in the same map or in another one (an alias): every name denotes it, in the map and in the snapshot. In ~13% of the cases the root level gets 40-260 further handles (the first and the last of them shadowing an older one). '
         ''
         'Before the mutation attempts every resource is unloaded: a rejected mutation must not load anything. '
         'Non-trivial = identifier and non-identifier names side by '
@@ -56,11 +56,11 @@ class UH(desper.Handle):
 
 
 def decode_node(p):
-    return {'parent': p % 8, 'name': p // 8 % len(NAMES), 'kind': ('h', 'h', 'h', 'm', 'm', 'layered')[p // (8 * len(NAMES)) % 6]}
+    return {'parent': p % 8, 'name': p // 8 % len(NAMES), 'kind': ('h', 'h', 'h', 'm', 'm', 'layered', 'alias')[p // (8 * len(NAMES)) % 7]}
 
 
 def strategy():
-    node = worldops.packed(8 * len(NAMES) * 6).map(decode_node)
+    node = worldops.packed(8 * len(NAMES) * 7).map(decode_node)
     # amp: 0, or the number of further handles the root level gets (wide levels, one of the names layered)
     return st.fixed_dictionaries({'nodes': st.lists(node, min_size=1, max_size=20),
                                   'amp': worldops.size_amp(none=40, sizes=(40, 64, 65, 66, 130, 260))})
@@ -73,6 +73,7 @@ def viol(clause, **d):
 def build(case, facts):
     root = desper.ResourceMap()
     maps = [(root, 0)]
+    made = []
     for nd in case['nodes']:
         parent, depth = maps[nd['parent'] % len(maps)]
         name = NAMES[nd['name']]
@@ -87,7 +88,16 @@ def build(case, facts):
             maps.append((m, depth + 1))
             facts['max_depth'] = max(facts['max_depth'], depth + 1)
         elif nd['kind'] == 'h':
-            parent[name] = UH()
+            made.append(UH())
+            parent[name] = made[-1]
+        elif nd['kind'] == 'alias':
+            # one handle object registered under a second name (an alias such as default_font), in the same map or
+            # in another one: every name it is registered under denotes it, in the map and in the snapshot
+            if not made:
+                made.append(UH())
+            else:
+                facts['handle_registered_under_two_names'] += 1
+            parent[name] = made[(nd['parent'] + nd['name']) % len(made)]
         else:
             older = UH()
             parent[name] = older
